@@ -296,3 +296,15 @@ def shrink(program):
     for c in C07.shrink(program):
         if len(c.get("segments", [])) == 1:
             yield c
+
+
+def evidence_extra(ok, tier):
+    exh = [r for r in ok if r["r"] < N_EXH]
+    return {
+        "exhaustive_subspace": {
+            "description": "every script of 4 validation outcomes over {improved?} x {stop?} (256) x periods 1, 2, 3, scripted module",
+            "programs": len(exh),
+            "expected": N_EXH,
+            "exhaustive": len(exh) == N_EXH,
+        }
+    }
